@@ -40,6 +40,8 @@ def c07_nontrivial(c, i):
         return len(c) > 2 and c[2] != "-"
     if c[0] == "c07.seq":
         return "s" in i
+    if c[0] == "c07.conc":
+        return "se" in i
     if c[0] == "c07.proto":
         return len(i) > 0 and i[0].isdigit() and int(i[0]) >= 1  # at least one syscall of the save observed
     return False
@@ -67,6 +69,14 @@ def c07_classify(c, i):
         out.append("saves=" + str(min(i.count("s"), 5)))
         if "corrupt" in i: out.append("offset-corruption-panic")
         if "t" in i: out.append("truncate")
+    elif kind == "conc":
+        # did a commit fall inside a save (between ss and se)?
+        inside, overlap = False, False
+        for t in i:
+            if t == "ss": inside = True
+            elif t == "se": inside = False
+            elif inside and (t.startswith("cs.") or t.startswith("cd.")): overlap = True
+        out.append("commit-during-save" if overlap else "no-overlap")
     elif kind == "proto":
         out.append("variant=" + c[1])
         nf = int(c[2]) if c[2].isdigit() else 0
@@ -88,8 +98,8 @@ CFG = {
     "nontrivial": c07_nontrivial,
     "classify": c07_classify,
     "signatures": {"c07_sig_newline": c07_sig_newline},
-    "rule": "process part: the save re-executed under strace for every single fault (EIO) and every kill point (SIGKILL at syscall entry) of open/write/fsync/rename/close/unlink, both protocols, plus first-save and two-fault cases (thorough: +330 random tables/blobs with 0-2 faults); function part: every stream name over {a,':',' ','-'} up to length 3 (thorough 4), pairs of them, the same as file names, a pool of names events can carry (':'-containing, UTF-8, control bytes, 1-6 kB, empty, with newline) x boundary offsets (0 … 2^63-1), random tables (0-4 jobs, 0-4 streams, duplicate sources/streams), every truncation and single-byte deletion of a two-job file, hand-written malformed files, random mutations of valid files, random strings over the format alphabet, random sequential schedules of real commits/truncations/saves; distinct = distinct case line; non-trivial = something was loaded back / a save syscall was observed",
-    "corr_name": "OffsetsFile.render/parse = offsetDB.save/load/parse (file bytes and loaded table); CommitSnap.step? = jobProvider.commit/truncateJob + save; SaveProto.step? (fileFixed, genFixed) accepts the observed syscall trace and predicts the file left on disk",
+    "rule": "process part: the save re-executed under strace for every single fault (EIO) and every kill point (SIGKILL at syscall entry) of open/write/fsync/rename/close/unlink, both protocols, plus first-save and two-fault cases (thorough: +330 random tables/blobs with 0-2 faults); function part: every stream name over {a,':',' ','-'} up to length 3 (thorough 4), pairs of them, the same as file names, a pool of names events can carry (':'-containing, UTF-8, control bytes, 1-6 kB, empty, with newline) x boundary offsets (0 … 2^63-1), random tables (0-4 jobs, 0-4 streams, duplicate sources/streams), every truncation and single-byte deletion of a two-job file, hand-written malformed files, random mutations of valid files, random strings over the format alphabet, random sequential schedules of real commits/truncations/saves, and committing goroutines racing a saving goroutine (each loaded entry must be that source's state after k commits, k between the commits returned before the save started and those started before it returned); distinct = distinct case line; non-trivial = something was loaded back / a save syscall was observed",
+    "corr_name": "OffsetsFile.render/parse = offsetDB.save/load/parse (file bytes and loaded table); CommitSnap.step? = jobProvider.commit/truncateJob + save (sequential schedules exactly; concurrent runs through the history-window oracle); SaveProto.step? (fileFixed, genFixed) accepts the observed syscall trace and predicts the file left on disk",
     "trusted_base": [
         "strace 6.1 fault injection (-e inject=<syscall>:error=EIO|signal=KILL:when=N); SIGKILL is delivered at syscall entry (the syscall is not executed)",
         "file-system semantics of Model/SaveProto.lean: rename atomic on the volatile and the durable level; fsync copies volatile to durable; un-synced data survives a process kill, not a power loss; the temp name is fresh",
